@@ -186,9 +186,9 @@ func cmdPubSub(args []string) {
 		// bounded time, counted in flush windows: three windows of the batch publisher (100 ms each)
 		if *stall {
 			// every send to the stalled consumer costs the publisher its 100 ms timeout
-			gotime.Sleep(gotime.Duration(350+110**npub*4) * gotime.Millisecond)
+			gotime.Sleep(gotime.Duration(900+110**npub*4) * gotime.Millisecond)
 		} else {
-			gotime.Sleep(350 * gotime.Millisecond)
+			gotime.Sleep(900 * gotime.Millisecond)
 		}
 		emit(map[string]any{"ev": "quiet", "run": run})
 		close(quiet)
@@ -277,7 +277,7 @@ func lastWatcherRun(run, nkeys int, rng *rand.Rand, emit func(map[string]any)) {
 		ps.Publish(ctx, actor(3000+k), events.DocEvent{Type: events.DocChanged, Actor: actor(3000 + k), Key: c.key})
 		emit(map[string]any{"ev": "pub.end", "run": run, "p": kname + ".p", "k": 0, "key": kname})
 	}
-	gotime.Sleep(350 * gotime.Millisecond)
+	gotime.Sleep(900 * gotime.Millisecond)
 	emit(map[string]any{"ev": "quiet", "run": run})
 	ids := 0
 	for k, c := range cells {
